@@ -1,12 +1,29 @@
 import SiaModel.Text.Policy
 import SiaModel.Text.Ident
 import SiaProofs.Lemmas.TextBasic
+import SiaProofs.Lemmas.TextQuote
+import SiaProofs.Lemmas.TextPolicy
 /-!
 # C20 — Text and JSON forms round-trip and reject corrupted identifiers
 
 Theorems about the hand-written text model `SiaModel/Text/*` (tied to the Go code by
 the generated facts `SiaModel.Gen.FactsText` — `tie_*` below — and by the
 correspondence run of `harness/props/c20.go`).  Texts are byte lists.
+
+Proved here (text layer):
+* plain hex identifiers: round trip; only exact-length, all-hex texts are accepted;
+* PublicKey / Account prefix forms; Address with checksum: round trip, exact length,
+  and every alteration of a checksum character to another hex value is rejected
+  (a body alteration is rejected unless the 48-bit checksum collides: harness sweep);
+* Specifier (strconv.Quote/Unquote with UTF-8 decoding, all 2^128 values), UnlockKey,
+  ChainIndex, ProtocolVersion, Work: round trip;
+* SpendPolicy.String → ParseSpendPolicy: round trip for every policy EXCEPT the two
+  corners F2 / F3, which are explicit hypotheses of `c20_policy_string_roundtrip_partial`
+  and are refuted on the model by `c20_policy_string_cex_sigcount` / `_cex_specifier`.
+
+Not proved here: the JSON layer (custom marshalers, the ApplyUpdate/RevertUpdate form —
+finding F1 — and the resolution `type` splice).  It is checked on the real code by the
+statement-level oracle of the harness only; no JSON-tree model exists yet.
 -/
 namespace C20
 open Sia.Text
@@ -115,14 +132,15 @@ example : parsePk Gen.FactsText.pkAlgBytes 2 (ofString "ed25519:ab07") = some [0
     ∧ parsePk Gen.FactsText.pkAlgBytes 2 (ofString "ed25519:ab0700") = none := by decide
 
 /-- rhp/v4 `Account`: parse (print a) = a -/
-theorem c20_account_roundtrip (pfx : Txt) (n : Nat) (k : List UInt8) (hk : k.length = n) :
-    parseAccount4 pfx n (pkString pfx k) = .ok k := by
+theorem c20_account_roundtrip (guard : Bool) (pfx : Txt) (n : Nat) (k : List UInt8) (hk : k.length = n) :
+    parseAccount4 guard pfx n (pkString pfx k) = .ok k := by
   simp [parseAccount4, pkString, stripPrefix_append, hexDecodeInto_hexEnc k n [] (by omega), hk]
 
-example : parseAccount4 Gen.FactsText.account4TrimPrefixBytes 2 (ofString "ed25519:ab07") = .ok [0xab, 0x07] := by decide
+example : parseAccount4 false Gen.FactsText.account4TrimPrefixBytes 2 (ofString "ed25519:ab07") = .ok [0xab, 0x07] := by decide
 /-- the code as found: an over-long account text is a run-time panic, not a rejection
     (reported by the harness as `c20-ident-panic:rhp4.Account`) -/
-example : parseAccount4 Gen.FactsText.account4TrimPrefixBytes 2 (ofString "ed25519:ab0700") = .panic := by decide
+example : parseAccount4 false Gen.FactsText.account4TrimPrefixBytes 2 (ofString "ed25519:ab0700") = .panic
+    ∧ parseAccount4 true Gen.FactsText.account4TrimPrefixBytes 2 (ofString "ed25519:ab0700") = .err := by decide
 
 /-! ## Address: hex(addr ‖ checksum) -/
 
@@ -238,8 +256,8 @@ theorem hex_ne_colon (b : List UInt8) : ∀ x ∈ hexEnc b, x ≠ 58 := by
   exact ne_of_toNat_ne (by simp; omega)
 
 /-- `ChainIndex`: parse (MarshalText ci) = ci -/
-theorem c20_chainindex_roundtrip (n : Nat) (ci : ChainIndex) (hh : ci.height < 2 ^ 64) (hid : ci.id.length = n) :
-    parseCi n (ciText ci) = .ok ci := by
+theorem c20_chainindex_roundtrip (guard : Bool) (n : Nat) (ci : ChainIndex) (hh : ci.height < 2 ^ 64) (hid : ci.id.length = n) :
+    parseCi guard n (ciText ci) = .ok ci := by
   unfold parseCi ciText
   have : natToDec ci.height ++ [58, 58] ++ hexEnc ci.id = natToDec ci.height ++ 58 :: 58 :: hexEnc ci.id := by simp
   rw [this, splitSep_append _ _ (digits_ne_colon _)]
@@ -247,11 +265,11 @@ theorem c20_chainindex_roundtrip (n : Nat) (ci : ChainIndex) (hh : ci.height < 2
   rw [hexDecodeInto_hexEnc _ n [] (by omega)]
   simp [hid]
 
-example : parseCi 2 (ciText ⟨300, [0xab, 0x07]⟩) = .ok ⟨300, [0xab, 0x07]⟩
+example : parseCi false 2 (ciText ⟨300, [0xab, 0x07]⟩) = .ok ⟨300, [0xab, 0x07]⟩
     ∧ ciText ⟨300, [0xab, 0x07]⟩ = ofString "300::ab07" := by decide
 /-- the code as found: an over-long id is a run-time panic, not a rejection
     (reported by the harness as `c20-ident-panic:types.ChainIndex`) -/
-example : parseCi 2 (ofString "300::ab0700") = .panic := by decide
+example : parseCi false 2 (ofString "300::ab0700") = .panic ∧ parseCi true 2 (ofString "300::ab0700") = .err := by decide
 
 theorem scanU8_natToDec (a : Nat) (ha : a < 256) (rest : Txt)
     (hr : rest = [] ∨ ∃ c r, rest = c :: r ∧ isDigit c = false) :
@@ -291,6 +309,32 @@ theorem c20_work_roundtrip (n : Nat) (h : n < 2 ^ 256) : parseWork (workText n) 
 example : parseWork (workText (2 ^ 255 + 12345)) = some (2 ^ 255 + 12345) :=
   c20_work_roundtrip _ (by decide)
 
+/-! ## Specifier (quoting rule) and UnlockKey -/
+
+/-- `Specifier`: parse (print s) = s for ALL 2^128 values — non-alphanumeric bytes,
+    interior zero bytes, quotes, backslashes, control characters, valid and invalid
+    UTF-8 — and for every IsPrint table `hi` (see Quote.lean). -/
+theorem c20_specifier_roundtrip (hi : Nat → Bool) (n : Nat) (s : List UInt8) (hs : s.length = n) :
+    parseSpec n (specString hi s) = some s :=
+  parseSpec_specString hi n s hs
+
+/-- the underlying library fact: `strconv.Unquote (strconv.Quote b) = b` for every byte string -/
+theorem c20_unquote_quote (hi : Nat → Bool) (b : Txt) : unquote (quote hi b) = some b :=
+  unquote_quote hi b
+
+example : specString (fun _ => false) [97, 34, 0, 255, 10, 0xc3, 0xa9, 0, 0] = ofString "\"a\\\"\\x00\\xff\\né\""
+    ∧ parseSpec 9 (specString (fun _ => false) [97, 34, 0, 255, 10, 0xc3, 0xa9, 0, 0]) = some [97, 34, 0, 255, 10, 0xc3, 0xa9, 0, 0]
+    ∧ specString (fun _ => false) [101, 100, 0, 0] = ofString "ed"
+    ∧ parseSpec 4 (ofString "\"toolong\"") = none := by decide
+
+/-- `UnlockKey`: parse (print k) = k, for any key length and any algorithm specifier -/
+theorem c20_unlockkey_roundtrip (hi : Nat → Bool) (n : Nat) (uk : UnlockKey) (h : uk.alg.length = n) :
+    parseUk n (ukText hi uk) = some uk :=
+  parseUk_ukText hi n uk h
+
+example : ukText (fun _ => false) ⟨[97, 58, 98, 0], [0xab]⟩ = ofString "\"a:b\":ab"
+    ∧ parseUk 4 (ukText (fun _ => false) ⟨[97, 58, 98, 0], [0xab]⟩) = some ⟨[97, 58, 98, 0], [0xab]⟩ := by decide
+
 /-! ## SpendPolicy.String / ParseSpendPolicy: the two corners that do NOT round-trip -/
 
 /-- no rune above U+00FF is printable: enough for texts without such runes -/
@@ -326,5 +370,66 @@ theorem c20_policy_string_sigcount_64 : (parsePolicy (goCfgWith 64 hi0) (Policy.
 theorem c20_policy_string_cex_specifier :
     (parsePolicy (goCfgWith 8 hi0) (Policy.str hi0 polSpecComma)).isNone = true
     ∧ (parsePolicy (goCfgWith 64 hi0) (Policy.str hi0 polSpecComma)).isNone = true := by decide
+
+/-! ## SpendPolicy.String / ParseSpendPolicy: the round trip -/
+
+/-- the parser configuration read from the source is the one the proofs are written for
+    (delimiter set "(),[]", 64-bit heights and timelocks, 8-bit thresholds, 16-byte specifiers);
+    the signature-count width is left to the source -/
+theorem tie_policy_cfg (hi : Nat → Bool) : CfgStd (goCfg hi) :=
+  ⟨rfl, rfl, rfl, rfl, rfl⟩
+
+/-
+  Full statement (FALSE on the code as found, see the two counterexamples above):
+
+    theorem c20_policy_string_roundtrip (hi) (p : Policy) (hwf : p.WF) :
+        parsePolicy (goCfg hi) (Policy.str hi p) = some p
+
+  What is proved: the same, with the two failing corners excluded by explicit hypotheses —
+    `hsig`  (F2) every `uc` signature count is below 2^(bit size the parser passes to its
+            integer reader); with the source at 8 bits this excludes counts > 255, with 64 bits
+            it excludes nothing (`c20_policy_string_sigfits_64`);
+    `hkeys` (F3) no `uc` key text contains one of the delimiters "(),[]"; only a quoted
+            (non-alphanumeric) algorithm specifier can (`c20_policy_string_keys_safe_alnum`).
+-/
+theorem c20_policy_string_roundtrip_partial (hi : Nat → Bool) (p : Policy) (hwf : p.WF)
+    (hsig : p.SigFits Gen.FactsText.ucSigBits) (hkeys : p.KeysSafe hi) :
+    parsePolicy (goCfg hi) (Policy.str hi p) = some p :=
+  parsePolicy_str (tie_policy_cfg hi) hi p hwf hsig hkeys
+
+/-- the same for any configuration of the standard shape (used for "after the repair") -/
+theorem c20_policy_string_roundtrip_cfg_partial (cfg : Cfg) (hc : CfgStd cfg) (hi : Nat → Bool) (p : Policy)
+    (hwf : p.WF) (hsig : p.SigFits cfg.ucSigBits) (hkeys : p.KeysSafe hi) :
+    parsePolicy cfg (Policy.str hi p) = some p :=
+  parsePolicy_str hc hi p hwf hsig hkeys
+
+/-- once the parser reads the count with the printer's 64 bits, exclusion F2 is vacuous -/
+theorem c20_policy_string_sigfits_64 (h : Gen.FactsText.ucSigBits = 64) (p : Policy) (hwf : p.WF) :
+    p.SigFits Gen.FactsText.ucSigBits := by
+  rw [h]; exact sigFits_of_wf p hwf
+
+/-- exclusion F3 only bites for quoted specifiers: alphanumeric algorithm names are always safe -/
+theorem c20_policy_string_keys_safe_alnum (hi : Nat → Bool) (tl sg : Nat) (ks : List UnlockKey)
+    (h : ∀ k ∈ ks, (trimZeros k.alg).all isAlnum = true) : (Policy.uc tl ks sg).KeysSafe hi := by
+  intro k hk
+  exact ukText_safe_of_alnum hi k (h k hk)
+
+/-- hypotheses are satisfiable by a non-trivial policy: a threshold over every kind,
+    including a `uc` with a quoted (non-alphanumeric, delimiter-free) specifier -/
+def polDemo : Policy :=
+  .thresh 2 (.cons (.above 100) (.cons (.after (-5)) (.cons (.pk (List.replicate 32 7))
+    (.cons (.uc 9 [⟨[101, 100, 50, 53, 53, 49, 57, 0, 0, 0, 0, 0, 0, 0, 0, 0], [1, 2]⟩,
+                    ⟨[97, 32, 34, 98, 0, 0, 0, 0, 0, 0, 0, 0, 0, 0, 0, 0], []⟩] 200)
+      (.cons (.thresh 0 .nil) .nil)))))
+
+theorem polDemo_wf : polDemo.WF ∧ polDemo.SigFits 8 := by
+  simp [polDemo, Policy.WF, PolicyList.WF, Policy.SigFits, PolicyList.SigFits]
+
+theorem polDemo_keys : polDemo.KeysSafe hi0 := by
+  simp only [polDemo, Policy.KeysSafe, PolicyList.KeysSafe, and_true, true_and]
+  decide
+
+example : parsePolicy (goCfgWith 8 hi0) (Policy.str hi0 polDemo) = some polDemo :=
+  c20_policy_string_roundtrip_cfg_partial _ ⟨rfl, rfl, rfl, rfl, rfl⟩ hi0 polDemo polDemo_wf.1 polDemo_wf.2 polDemo_keys
 
 end C20
